@@ -115,3 +115,38 @@ pub fn oracle_selftest(seed: u64) {
     for k in [1usize, 3, 5, 7].iter() { for la in lats.iter() { if la.abs() < 1.57 { crate::c11::p_c11_neighbourhood(ns, 0.25 * PI * *k as f64, *la, 2); } } }
   }
 }
+
+
+/// Scan of the role of finding F4 (polar-cap seams and cap-base corners) with the native oracle: counts the failing positions.
+pub fn f4_scan(_seed: u64) {
+  let mut bad = 0u64;
+  let mut total = 0u64;
+  let mut first: Vec<String> = Vec::new();
+  let nsides = [1u32, 2, 3, 4, 5, 6, 7, 8, 9, 13, 100, 1000003, (1 << 29) - 1, 1 << 29];
+  for &ns in nsides.iter() {
+    for k in -8i64..=12 {
+      let l0 = 0.25 * PI * k as f64;
+      for step in 0..=60 {
+        let a = T + (HALF_PI - T) * (step as f64 / 60.0);
+        for &la in [a, -a, nudge(a, 1), nudge(-a, 1), nudge(a, -1)].iter() {
+          if la.abs() > HALF_PI { continue; }
+          for dk in -3i64..=3 {
+            let lo = nudge(l0, dk);
+            total += 1;
+            let r = std::panic::catch_unwind(|| crate::c11::p_c11_point(ns, lo, la));
+            if let Err(e) = r {
+              bad += 1;
+              if first.len() < 12 {
+                let msg = if let Some(s) = e.downcast_ref::<String>() { s.clone() } else if let Some(s) = e.downcast_ref::<&str>() { s.to_string() } else { "panic".to_string() };
+                first.push(format!("nside {} lon {:e} lat {:e}: {}", ns, lo, la, &msg[..msg.len().min(160)]));
+              }
+            }
+          }
+        }
+      }
+    }
+  }
+  println!("f4_scan: {} failing of {} positions", bad, total);
+  for m in first.iter() { println!("  {}", m); }
+  assert!(bad == 0, "f4_scan: {} failing positions", bad);
+}
